@@ -1578,6 +1578,8 @@ def run(prop, drive, seed=0, big=False):
             outs_x = drive([{k: v for k, v in c[0].items() if not k.startswith('_')} for c in extra_cases])
             n += len(extra_cases)
             for (nreq, oracle, back, oreq), resp in zip(extra_cases, outs_x):
+                if resp.get('skipped'):
+                    continue
                 mapped = dict(resp)
                 if isinstance(resp.get('output'), str):
                     mapped['output'] = back(resp['output'])
@@ -1588,6 +1590,8 @@ def run(prop, drive, seed=0, big=False):
                     if len(hits) >= 5:
                         return n, hits
         for i, ((req, oracle), resp) in enumerate(zip(cases, outs)):
+            if resp.get('skipped') or (isinstance(oracle, tuple) and extra[i].get('skipped')):
+                continue
             if isinstance(oracle, tuple):
                 why = None
                 if not resp.get('ok') or not extra[i].get('ok'):
